@@ -859,6 +859,9 @@ func (fr *Frame) logRetSig(ctx *callCtx, callee calleeSig, r Val) Val {
 			continue
 		}
 		hn := fmt.Sprintf("callret_%s_%d", mangle(callee.Name()), i)
+		if prev, ok := e.heapSorts[hn]; ok && prev != srt {
+			continue
+		}
 		e.setHeap(ctx.st, hn, srt, v.S)
 		e.callArgTypes[hn] = t
 		// running sum of numeric results over all calls (retsum(F, i) in contracts)
@@ -891,6 +894,11 @@ func (fr *Frame) logCallSig(ctx *callCtx, callee calleeSig) {
 			continue
 		}
 		hn := "callarg_" + mangle(name) + "_" + mangle(pname)
+		if prev, ok := e.heapSorts[hn]; ok && prev != srt {
+			// two layer functions of the same name with differently typed parameters of the same name (a keeper method
+			// and the method of another keeper it forwards to): the log keeps the first one's values
+			continue
+		}
 		e.setHeap(ctx.st, hn, srt, ctx.args[i].S)
 		e.callArgTypes[hn] = pt
 		// running sum of numeric arguments over all calls (argsum(F, p) in contracts)
